@@ -409,6 +409,31 @@ func (tr *Translator) index(x, i tv) tv {
 var qcount int
 
 func (tr *Translator) quant(x *EQuant) tv {
+	if x.Split != nil {
+		// proof hint: (forall k. R ==> B) as (forall k. S && R ==> B) && (forall k. !S && R ==> B)
+		a, b := *x, *x
+		a.Split, b.Split = nil, nil
+		if x.Forall {
+			a.Body = &EBinary{"==>", x.Split, x.Body}
+			b.Body = &EBinary{"==>", &EUnary{"!", x.Split}, x.Body}
+			return tv{And(tr.quant(&a).t, tr.quant(&b).t), tyBool}
+		}
+		a.Body = &EBinary{"&&", x.Split, x.Body}
+		b.Body = &EBinary{"&&", &EUnary{"!", x.Split}, x.Body}
+		return tv{Or(tr.quant(&a).t, tr.quant(&b).t), tyBool}
+	}
+	if x.Forall {
+		// distribute over a conjunctive consequent: forall k. P ==> (A && B)  ==  (forall k. P ==> A) && (forall k. P ==> B)
+		if parts := distributeImp(x.Body); len(parts) > 1 {
+			var ts []T
+			for _, b := range parts {
+				c := *x
+				c.Body = b
+				ts = append(ts, tr.quant(&c).t)
+			}
+			return tv{And(ts...), tyBool}
+		}
+	}
 	saved := tr.bound
 	nb := map[string]tv{}
 	for k, v := range saved {
@@ -553,6 +578,34 @@ func (tr *Translator) call(c *ECall) tv {
 			tr.fail("isappend needs spec concatOf")
 		}
 		return tr.specApp(sf, []tv{arg(0), arg(1), arg(2)})
+	case "hdr":
+		// value of a loop variable at the loop header (the havoced phi), usable inside the loop body / back edge
+		id, ok := c.Args[0].(*EIdent)
+		if !ok || tr.li == nil {
+			tr.fail("hdr() needs a loop variable inside a loop context")
+		}
+		for phi, t := range tr.li.phiSyms {
+			if phi.Comment == id.Name {
+				return tv{t, phi.Type()}
+			}
+		}
+		// on entry (before the havoc) fall back to the current value
+		return tr.lookupIdent(id.Name)
+	case "addrof":
+		// pointer to an address-taken local variable
+		id, ok := c.Args[0].(*EIdent)
+		if !ok {
+			tr.fail("addrof needs a variable name")
+		}
+		for i := range f.names[id.Name] {
+			nr := &f.names[id.Name][i]
+			if nr.addr && tr.block != nil && (nr.block == tr.block || nr.block.Dominates(tr.block)) {
+				if _, ok := f.vals[nr.val]; ok {
+					return tv{f.val(nr.val), nr.val.Type()}
+				}
+			}
+		}
+		tr.fail("addrof(%s): no such address-taken variable here", id.Name)
 	case "ptrlike":
 		return tv{App(SBool, "ptrlike", App(SInt, "tag", arg(0).t)), tyBool}
 	case "ptrval":
@@ -1059,4 +1112,26 @@ func atTerm(e *Enc, es Sort, inner, off, i T) T {
 		e.addFact(fn, fmt.Sprintf("(assert (forall ((a!t %s) (o!t Int) (i!t Int)) (! (= (%s a!t o!t i!t) (select a!t (+ o!t i!t))) :pattern ((%s a!t o!t i!t)))))", isort, fn, fn))
 	}
 	return App(es, fn, inner, off, i)
+}
+
+// distributeImp splits P ==> (A && B && ...) into [P ==> A, P ==> B, ...] (recursively through nested ==>).
+func distributeImp(e Expr) []Expr {
+	switch b := e.(type) {
+	case *EBinary:
+		switch b.Op {
+		case "&&":
+			return append(distributeImp(b.X), distributeImp(b.Y)...)
+		case "==>":
+			rs := distributeImp(b.Y)
+			if len(rs) <= 1 {
+				return []Expr{e}
+			}
+			out := make([]Expr, len(rs))
+			for i, r := range rs {
+				out[i] = &EBinary{"==>", b.X, r}
+			}
+			return out
+		}
+	}
+	return []Expr{e}
 }
